@@ -4,9 +4,9 @@ from tools.lv import hexs, unhex
 LEVEL = "proof"
 CORRESPONDENCE = ("Model/Mime.lean (format of single parts, multiparts and messages from header blocks, bodies and boundaries) vs "
                   "SinglePart / MultiPart / Message formatted(), MultiPart::boundary(), kinds and protocol/micalg parameters")
-RULE = ("mime: random trees up to depth 4 and fan-out 5 from plain/html/custom single parts, Attachment::new (file names with quotes, "
+RULE = ("mime: random trees up to depth 4 and fan-out 5 from plain/html/custom single parts, Attachment::new (file names empty, blank, with leading / trailing blanks, quotes, "
         "backslashes, non-ASCII, long) and Attachment::new_inline parts and mixed / alternative / related / "
-        "signed / encrypted multiparts, empty multiparts, generated and custom boundaries (incl. `a b` and `=_x'()+_,-./:=?`), leaf "
+        "signed / encrypted multiparts (protocol / micalg values with and without capitals, checked by the reader), empty multiparts, generated and custom boundaries (incl. `a b` and `=_x'()+_,-./:=?`), leaf "
         "contents with `--` lines and boundary-like text, every transfer encoding; each tree is formatted alone, twice, cloned, and as "
         "the body of a message; an RFC 2046 reader (Spec/MimeParse.lean) recovers the structure from the message octets and it is "
         "compared with the tree asked for (nesting, order, content types, decoded leaf contents). Non-trivial = depth >= 2 or a leaf "
@@ -34,7 +34,7 @@ def valid_utf8(b):
         return False
 
 
-ATT_NAMES = ["and/or.txt", "minutes 2024/06/30.txt", "/etc/passwd", "dir\\sub\\file.txt", "trailing/", "Invoice-Q3.PDF", "x.txt", "report final.pdf", 'report "final".pdf', "C:\\temp\\new.txt", "résumé.pdf", "日本語.txt", "a" * 70 + ".bin", 'q"' * 10, "semi;colon.txt",
+ATT_NAMES = ["", " ", " leading blank.txt", "trailing blank.txt ", "and/or.txt", "minutes 2024/06/30.txt", "/etc/passwd", "dir\\sub\\file.txt", "trailing/", "Invoice-Q3.PDF", "x.txt", "report final.pdf", 'report "final".pdf', "C:\\temp\\new.txt", "résumé.pdf", "日本語.txt", "a" * 70 + ".bin", 'q"' * 10, "semi;colon.txt",
              "it's", "a b c " * 12, "trailing\\", "=?utf-8?b?eA==?=.txt"]
 CIDS = ["img1", "part1.06090408.01060107@example.org", "a b"]
 
@@ -68,7 +68,7 @@ def tree(rng, depth, used):
             used.add(b)
     n = rng.choice([0, 1, 2, 2, 3, 5])
     kids = " ".join(tree(rng, depth - 1, used) for _ in range(n))
-    return f"M {rng.choice('marseMARSE')} {hexs(b) if b != '-' else '-'} {n}" + (" " + kids if kids else "")
+    return f"M {rng.choice('marseMARSExyXY')} {hexs(b) if b != '-' else '-'} {n}" + (" " + kids if kids else "")
 
 
 def boundary_free(case):
